@@ -74,7 +74,9 @@ Definition decode_app (pp : Z) (d : bytes) : option appval :=
 Definition sx_of_chunk (c : chunk) : sx :=
   L [A (tsn c); A (sid c); A (sseq c); of_b (unordered c); of_b (first c); of_b (last c); A (ppid c); of_zs (udata c)].
 
+(* input: (tsn0, [(sid ordered ppid data)...], optional [(sid seq)...] = _outbound_stream_seq at the start) *)
 Definition main (x : sx) : sx :=
   let ms := map (fun m => mkOut (sx_z (sx_nth m 0)) (sx_b (sx_nth m 1)) (sx_z (sx_nth m 2)) (sx_zs (sx_nth m 3)))
                 (sx_l (sx_nth x 1)) in
-  L (map (fun cs => L (map sx_of_chunk cs)) (send_msgs (mkS (sx_z (sx_nth x 0)) []) ms)).
+  let seqs := map (fun p => (sx_z (sx_nth p 0), sx_z (sx_nth p 1))) (sx_l (sx_nth x 2)) in
+  L (map (fun cs => L (map sx_of_chunk cs)) (send_msgs (mkS (sx_z (sx_nth x 0)) seqs) ms)).
